@@ -1,6 +1,1401 @@
-//! C09 — not implemented yet.
+//! C09 — A self-administered timelock controller cannot be driven around its own delay.
+//!
+//! Target: the example `TimelockController` constructed with `admin = None`, 1–2 proposers,
+//! 0–2 executors, an external `Target` and a `Batcher` intermediary.  The controller's own
+//! address authorizes admin-only calls through its `__check_auth`; the harness never mocks
+//! that address: it attaches hand-built credentials whose signature is a generated
+//! `Vec<OperationMeta>`.  Executors / proposers / cancellers are plain actors (accept-all
+//! accounts), so "X authorized" == "an entry of X with exactly that invocation was attached".
+//!
+//! Reference model (written from the property statement and the example's module docs):
+//! operation states, role membership, admin, minimum delay; a sequential model of what
+//! `__check_auth` MAY accept (every context needs its own descriptor naming a Ready operation
+//! with exactly (controller, fn, args, predecessor, salt), predecessor Done, executor with
+//! role + exact entry whenever executors are configured) and MUST accept (additionally one
+//! descriptor per context).  After every step the complete observable state is compared.
+
+use crate::contracts::c08::target::Target;
+use crate::contracts::c09::batcher::Batcher;
 use crate::engine::*;
+use crate::envx::{self, call, call_t, Inv};
+use crate::examples::timelock_controller::contract::{OperationMeta, TimelockController};
+use crate::gen::pick;
+use proptest::prelude::*;
+use serde::{Deserialize, Serialize};
+use soroban_sdk::auth::{Context, ContractContext, ContractExecutable, CreateContractHostFnContext};
+use soroban_sdk::xdr::{ScVal, SorobanAuthorizationEntry};
+use soroban_sdk::{Address, BytesN, Env, IntoVal, Symbol, TryFromVal, Val, Vec as SVec};
+use std::collections::BTreeSet;
+use stellar_governance::timelock::{OperationState, TimelockError};
+
+pub const POOL: usize = 4;
+pub const N_ACT: usize = 6;
+pub const ROLES: [&str; 4] = ["proposer", "executor", "canceller", "minter"];
+const R_PROP: usize = 0;
+const R_EXEC: usize = 1;
+const R_CANC: usize = 2;
+
+// ---------------------------------------------------------------- case data
+
+#[derive(Clone, Debug, Serialize, Deserialize, PartialEq, Eq)]
+pub enum AdminCall {
+    UpdateDelay(u32),
+    /// grant_role(actor, role, caller = controller)
+    GrantRole { acct: u8, role: u8 },
+    /// revoke_role(actor, role, caller = controller)
+    RevokeRole { acct: u8, role: u8 },
+    SetRoleAdmin { role: u8, admin_role: u8 },
+    /// transfer_admin_role(actor, live_until = start ledger + 50 + live)
+    TransferAdmin { to: u8, live: u16 },
+    RenounceAdmin,
+}
+
+#[derive(Clone, Debug, Serialize, Deserialize)]
+pub enum OpTarget {
+    /// self-administration with the case's chosen admin call
+    Chosen,
+    /// self-administration: target = the controller
+    Admin(AdminCall),
+    /// external target: Target::bump(arg)
+    External(u8),
+}
+
+#[derive(Clone, Debug, Serialize, Deserialize)]
+pub enum PredSel {
+    None,
+    /// an earlier pool operation
+    Pool(u16),
+    Never,
+}
+
+#[derive(Clone, Debug, Serialize, Deserialize)]
+pub struct OpSpec {
+    pub target: OpTarget,
+    pub pred: PredSel,
+    pub salt: u8,
+}
+
+#[derive(Clone, Debug, Serialize, Deserialize)]
+pub enum Sel {
+    Idx(u16),
+    /// operation named by the previous step
+    Last,
+    /// state-relative, resolved against the model (fallback `Idx`)
+    Unset(u16),
+    Pending(u16),
+    Done(u16),
+    /// k-th pending self-administration operation (predecessor satisfied if possible)
+    AdminPending(u16),
+    /// k-th pending external operation
+    ExtPending(u16),
+}
+
+#[derive(Clone, Debug, Serialize, Deserialize)]
+pub enum Delay {
+    MinPlus(i8),
+    K(u32),
+}
+
+#[derive(Clone, Debug, Serialize, Deserialize, PartialEq, Eq)]
+pub enum Auth {
+    Exact,
+    /// no entry of the required account
+    Drop,
+    /// another actor signs the same invocation
+    Swap(u16),
+    /// the required account signs the same function with one argument changed
+    Tamper,
+    /// Exact plus an unrelated entry of another actor
+    Surplus(u16),
+}
+
+#[derive(Clone, Debug, Serialize, Deserialize)]
+pub enum ExecSel {
+    Absent,
+    /// k-th current holder of the executor role (Absent when there is none)
+    Holder(u16),
+    /// k-th actor without the executor role
+    NonHolder(u16),
+}
+
+#[derive(Clone, Debug, Serialize, Deserialize, PartialEq, Eq)]
+pub enum EntryMode {
+    Exact,
+    Missing,
+    /// entry names another salt / other call arguments / is rooted at `execute_op` instead of `__check_auth`
+    TamperSalt,
+    TamperArgs,
+    WrongRoot,
+    /// a different actor signs the exact invocation
+    OtherSigner(u16),
+}
+
+#[derive(Clone, Debug, Serialize, Deserialize)]
+pub enum Like {
+    /// predecessor / salt of the operation the aligned context refers to
+    Ctx,
+    /// predecessor / salt of another pool operation
+    Op(Sel),
+}
+
+#[derive(Clone, Debug, Serialize, Deserialize)]
+pub struct MetaSpec {
+    pub like: Like,
+    pub pred_tweak: bool,
+    pub salt_tweak: bool,
+    pub executor: ExecSel,
+    pub entry: EntryMode,
+}
+
+#[derive(Clone, Debug, Serialize, Deserialize)]
+pub enum CallSel {
+    /// the admin call of a pool operation (an external op falls back to pool op 0's call / update_delay(0))
+    Op(Sel),
+    /// the same with one argument changed (not what was scheduled)
+    OpTweaked(Sel),
+    Free(AdminCall),
+}
+
+#[derive(Clone, Debug, Serialize, Deserialize, PartialEq, Eq)]
+pub enum Via {
+    /// top-level call of the admin function
+    Direct,
+    /// through `Batcher::fwd` (one context)
+    Forward,
+    /// through `Batcher::run`: one controller entry covering [batch, call 1 (, call 2)]
+    Batch,
+}
+
+#[derive(Clone, Debug, Serialize, Deserialize)]
+pub enum CtxSpec {
+    Op(Sel),
+    OpTweaked(Sel),
+    Free(AdminCall),
+    /// a context for another contract (Target::bump)
+    Foreign,
+    /// a CreateContractHostFn context
+    Create,
+}
+
+#[derive(Clone, Debug, Serialize, Deserialize)]
+pub enum Adv {
+    K(u32),
+    ToReady { op: Sel, d: i8 },
+}
+
+#[derive(Clone, Debug, Serialize, Deserialize)]
+pub enum Step {
+    Schedule { op: Sel, delay: Delay, by: u16, auth: Auth },
+    Cancel { op: Sel, by: u16, auth: Auth },
+    /// execute_op (meant for external targets); `at`: first move to ready(op)+d
+    Execute { op: Sel, executor: ExecSel, auth: Auth, at: Option<i8> },
+    Advance(Adv),
+    /// end-to-end admin call with crafted controller credentials
+    /// `fit`: pad (with well-formed descriptors) / truncate `metas` to one descriptor per context
+    Probe { call: CallSel, second: Option<CallSel>, metas: Vec<MetaSpec>, fit: bool, via: Via, at: Option<i8> },
+    /// direct `__check_auth` invocation with an arbitrary (context list, descriptor list) pair
+    CheckAuth { contexts: Vec<CtxSpec>, metas: Vec<MetaSpec>, fit: bool, at: Option<i8> },
+    /// accept_admin_transfer by an actor
+    Accept { by: u16, auth: Auth },
+}
+
+#[derive(Clone, Debug, Serialize, Deserialize)]
+pub struct Case {
+    /// the admin call most operations and probes of this case are about
+    pub chosen: AdminCall,
+    pub seq: u32,
+    pub min_delay: u32,
+    pub n_prop: u8,
+    pub n_exec: u8,
+    pub pool: Vec<OpSpec>,
+    pub steps: Vec<Step>,
+}
+
+// ---------------------------------------------------------------- strategy
+
+fn admin_call() -> BoxedStrategy<AdminCall> {
+    prop_oneof![
+        5 => (0u32..8).prop_map(AdminCall::UpdateDelay),
+        3 => (0u8..N_ACT as u8, 0u8..4).prop_map(|(acct, role)| AdminCall::GrantRole { acct, role }),
+        3 => (0u8..N_ACT as u8, 0u8..4).prop_map(|(acct, role)| AdminCall::RevokeRole { acct, role }),
+        1 => (0u8..4, 0u8..4).prop_map(|(role, admin_role)| AdminCall::SetRoleAdmin { role, admin_role }),
+        1 => (0u8..N_ACT as u8, 0u16..3000).prop_map(|(to, live)| AdminCall::TransferAdmin { to, live }),
+        1 => Just(AdminCall::RenounceAdmin),
+    ]
+    .boxed()
+}
+
+/// (idx, last, unset, pending, done, admin_pending, ext_pending)
+fn sel_w(w: [u32; 7]) -> BoxedStrategy<Sel> {
+    prop_oneof![
+        w[0] => any::<u16>().prop_map(Sel::Idx),
+        w[1] => Just(Sel::Last),
+        w[2] => any::<u16>().prop_map(Sel::Unset),
+        w[3] => any::<u16>().prop_map(Sel::Pending),
+        w[4] => any::<u16>().prop_map(Sel::Done),
+        w[5] => any::<u16>().prop_map(Sel::AdminPending),
+        w[6] => any::<u16>().prop_map(Sel::ExtPending),
+    ]
+    .boxed()
+}
+
+fn auth() -> BoxedStrategy<Auth> {
+    prop_oneof![
+        12 => Just(Auth::Exact),
+        1 => Just(Auth::Drop),
+        1 => any::<u16>().prop_map(Auth::Swap),
+        1 => Just(Auth::Tamper),
+        1 => any::<u16>().prop_map(Auth::Surplus),
+    ]
+    .boxed()
+}
+
+fn exec_sel() -> BoxedStrategy<ExecSel> {
+    prop_oneof![1 => Just(ExecSel::Absent), 8 => any::<u16>().prop_map(ExecSel::Holder), 1 => any::<u16>().prop_map(ExecSel::NonHolder)].boxed()
+}
+
+fn entry_mode() -> BoxedStrategy<EntryMode> {
+    prop_oneof![
+        12 => Just(EntryMode::Exact),
+        2 => Just(EntryMode::Missing),
+        1 => Just(EntryMode::TamperSalt),
+        1 => Just(EntryMode::TamperArgs),
+        1 => Just(EntryMode::WrongRoot),
+        1 => any::<u16>().prop_map(EntryMode::OtherSigner),
+    ]
+    .boxed()
+}
+
+fn meta_good() -> BoxedStrategy<MetaSpec> {
+    any::<u16>().prop_map(|k| MetaSpec { like: Like::Ctx, pred_tweak: false, salt_tweak: false, executor: ExecSel::Holder(k), entry: EntryMode::Exact }).boxed()
+}
+fn meta_any() -> BoxedStrategy<MetaSpec> {
+    (
+        prop_oneof![6 => Just(Like::Ctx), 1 => sel_w([2, 1, 0, 2, 1, 1, 0]).prop_map(Like::Op)],
+        proptest::bool::weighted(0.1),
+        proptest::bool::weighted(0.1),
+        exec_sel(),
+        entry_mode(),
+    )
+        .prop_map(|(like, pred_tweak, salt_tweak, executor, entry)| MetaSpec { like, pred_tweak, salt_tweak, executor, entry })
+        .boxed()
+}
+/// descriptor lists: (specs, fit).  fit = one descriptor per context (padded with well-formed ones)
+fn metas() -> BoxedStrategy<(Vec<MetaSpec>, bool)> {
+    prop_oneof![
+        6 => Just((vec![], true)),
+        3 => proptest::collection::vec(meta_any(), 1..=3).prop_map(|v| (v, true)),
+        2 => Just((vec![], false)),
+        2 => proptest::collection::vec(prop_oneof![2 => meta_good(), 1 => meta_any()], 0..=3).prop_map(|v| (v, false)),
+    ]
+    .boxed()
+}
+
+fn call_sel() -> BoxedStrategy<CallSel> {
+    prop_oneof![
+        8 => sel_w([1, 3, 0, 1, 1, 6, 0]).prop_map(CallSel::Op),
+        1 => sel_w([1, 2, 0, 1, 0, 3, 0]).prop_map(CallSel::OpTweaked),
+        2 => admin_call().prop_map(CallSel::Free),
+    ]
+    .boxed()
+}
+
+fn at() -> BoxedStrategy<Option<i8>> {
+    proptest::option::weighted(0.55, prop_oneof![Just(-1i8), Just(0), Just(0), Just(1)]).boxed()
+}
+
+fn step() -> BoxedStrategy<Step> {
+    let probe = prop_oneof![
+        8 => (call_sel(), metas(), prop_oneof![5 => Just(Via::Direct), 1 => Just(Via::Forward)], at())
+            .prop_map(|(call, (metas, fit), via, at)| Step::Probe { call, second: None, metas, fit, via, at }),
+        1 => (call_sel(), proptest::option::of(call_sel()), metas(), at())
+            .prop_map(|(call, second, (metas, fit), at)| Step::Probe { call, second, metas, fit, via: Via::Batch, at }),
+    ];
+    let ctx_spec = prop_oneof![
+        8 => sel_w([1, 2, 0, 1, 1, 6, 1]).prop_map(CtxSpec::Op),
+        1 => sel_w([1, 2, 0, 1, 0, 3, 0]).prop_map(CtxSpec::OpTweaked),
+        1 => admin_call().prop_map(CtxSpec::Free),
+        1 => Just(CtxSpec::Foreign),
+        1 => Just(CtxSpec::Create),
+    ];
+    let ctx_list = prop_oneof![
+        5 => proptest::collection::vec(ctx_spec, 0..=3),
+        // the first and the last pending self-administration operation in one batch
+        1 => Just(vec![CtxSpec::Op(Sel::AdminPending(0)), CtxSpec::Op(Sel::AdminPending(u16::MAX))]),
+        1 => Just(vec![CtxSpec::Op(Sel::AdminPending(u16::MAX)), CtxSpec::Op(Sel::AdminPending(0))]),
+    ];
+    let check_auth = (ctx_list, metas(), at()).prop_map(|(contexts, (metas, fit), at)| Step::CheckAuth { contexts, metas, fit, at });
+    prop_oneof![
+        9 => (sel_w([1, 1, 8, 1, 1, 0, 0]), prop_oneof![1 => Just(Delay::MinPlus(-1)), 5 => Just(Delay::MinPlus(0)), 2 => Just(Delay::MinPlus(1)), 3 => (0u32..6).prop_map(Delay::K)], prop_oneof![3 => 0u16..10000, 1 => 0u16..20000, 1 => any::<u16>()], auth())
+            .prop_map(|(op, delay, by, auth)| Step::Schedule { op, delay, by, auth }),
+        2 => (sel_w([1, 2, 1, 5, 1, 0, 0]), prop_oneof![4 => 0u16..20000, 1 => any::<u16>()], auth()).prop_map(|(op, by, auth)| Step::Cancel { op, by, auth }),
+        4 => (sel_w([1, 1, 0, 1, 1, 0, 10]), exec_sel(), auth(), at()).prop_map(|(op, executor, auth, at)| Step::Execute { op, executor, auth, at }),
+        4 => prop_oneof![1 => (0u32..8).prop_map(Adv::K), 3 => (sel_w([0, 4, 0, 3, 0, 3, 1]), prop_oneof![Just(-1i8), Just(0), Just(0), Just(1)]).prop_map(|(op, d)| Adv::ToReady { op, d })]
+            .prop_map(Step::Advance),
+        10 => probe,
+        5 => check_auth,
+        1 => (any::<u16>(), auth()).prop_map(|(by, auth)| Step::Accept { by, auth }),
+    ]
+    .boxed()
+}
+
+fn strategy(tier: Tier) -> BoxedStrategy<Case> {
+    let max = tier.pick(30usize, 60usize);
+    let op_spec = (
+        prop_oneof![6 => Just(OpTarget::Chosen), 3 => admin_call().prop_map(OpTarget::Admin), 3 => (0u8..3).prop_map(OpTarget::External)],
+        prop_oneof![5 => Just(PredSel::None), 3 => any::<u16>().prop_map(PredSel::Pool), 1 => Just(PredSel::Never)],
+        0u8..3,
+    )
+        .prop_map(|(target, pred, salt)| OpSpec { target, pred, salt });
+    (
+        admin_call(),
+        100u32..5000,
+        prop_oneof![1 => Just(0u32), 5 => 1u32..6],
+        1u8..=2,
+        0u8..=2,
+        (0u8..3, proptest::collection::vec(op_spec, POOL - 2..=POOL - 2)),
+        // two concatenated vectors truncated to `max`: long histories are the rule, and both parts shrink by deletion
+        (proptest::collection::vec(step(), 0..=max), proptest::collection::vec(step(), 0..=max)),
+    )
+        .prop_map(move |(chosen, seq, min_delay, n_prop, n_exec, (ext_arg, mut pool), (mut steps, more))| {
+            steps.extend(more);
+            steps.truncate(max);
+            // pool op 0 = the chosen self-administration call, pool op 1 = an external call (always present)
+            pool.insert(0, OpSpec { target: OpTarget::External(ext_arg), pred: PredSel::None, salt: 0 });
+            pool.insert(0, OpSpec { target: OpTarget::Chosen, pred: PredSel::None, salt: 0 });
+            Case { chosen, seq, min_delay, n_prop, n_exec, pool, steps }
+        })
+        .boxed()
+}
+
+// ---------------------------------------------------------------- world + model
+
+#[derive(Clone, Copy, Debug, PartialEq, Eq)]
+enum St {
+    Unset,
+    Sched(u32),
+    Done,
+}
+fn derive(st: St, now: u32) -> (u32, u32) {
+    match st {
+        St::Unset => (0, OperationState::Unset as u32),
+        St::Sched(r) if r > now => (r, OperationState::Waiting as u32),
+        St::Sched(r) => (r, OperationState::Ready as u32),
+        St::Done => (1, OperationState::Done as u32),
+    }
+}
+
+#[derive(Clone, Copy, Debug, PartialEq, Eq)]
+enum Adm {
+    Ctrl,
+    Actor(usize),
+    Nobody,
+}
+
+#[derive(Clone, Debug)]
+struct Model {
+    min_delay: u32,
+    admin: Adm,
+    /// pending admin transfer (actor, live_until)
+    pending: Option<(usize, u32)>,
+    roles: BTreeSet<(usize, usize)>,
+    role_admin: [Option<usize>; 4],
+    st: Vec<St>,
+    target_total: u32,
+}
+impl Model {
+    fn execs(&self) -> Vec<usize> {
+        (0..N_ACT).filter(|a| self.roles.contains(&(*a, R_EXEC))).collect()
+    }
+}
+
+struct OpInfo {
+    target: Address,
+    func: Symbol,
+    args: SVec<Val>,
+    pred: BytesN<32>,
+    salt: BytesN<32>,
+    id: BytesN<32>,
+    call: Option<AdminCall>,
+    pred_idx: Option<usize>,
+    pred_never: bool,
+}
+
+struct World {
+    e: Env,
+    ctrl: Address,
+    actors: Vec<Address>,
+    target: Address,
+    batcher: Address,
+    ops: Vec<OpInfo>,
+    seq0: u32,
+}
+
+#[derive(Clone, Debug, PartialEq, Eq)]
+struct Obs {
+    min_delay: u32,
+    admin: Option<Address>,
+    /// [account (actors then controller)][role]
+    roles: Vec<[bool; 4]>,
+    exec_count: u32,
+    role_admin: [Option<usize>; 4],
+    ops: Vec<(u32, u32)>,
+    target_total: u32,
+}
+
+fn zero(e: &Env) -> BytesN<32> {
+    BytesN::from_array(e, &[0u8; 32])
+}
+fn role_sym(e: &Env, r: usize) -> Symbol {
+    Symbol::new(e, ROLES[r % 4])
+}
+fn svec(e: &Env, v: &[Val]) -> SVec<Val> {
+    let mut o = SVec::new(e);
+    for x in v {
+        o.push_back(*x);
+    }
+    o
+}
+
+impl World {
+    fn call_inv(&self, c: &AdminCall) -> (&'static str, Vec<Val>) {
+        let e = &self.e;
+        match c {
+            AdminCall::UpdateDelay(v) => ("update_delay", vec![v.into_val(e)]),
+            AdminCall::GrantRole { acct, role } => {
+                ("grant_role", vec![self.actors[*acct as usize % N_ACT].clone().into_val(e), role_sym(e, *role as usize).into_val(e), self.ctrl.clone().into_val(e)])
+            }
+            AdminCall::RevokeRole { acct, role } => {
+                ("revoke_role", vec![self.actors[*acct as usize % N_ACT].clone().into_val(e), role_sym(e, *role as usize).into_val(e), self.ctrl.clone().into_val(e)])
+            }
+            AdminCall::SetRoleAdmin { role, admin_role } => ("set_role_admin", vec![role_sym(e, *role as usize).into_val(e), role_sym(e, *admin_role as usize).into_val(e)]),
+            AdminCall::TransferAdmin { to, live } => ("transfer_admin_role", vec![self.actors[*to as usize % N_ACT].clone().into_val(e), self.live_until(*live).into_val(e)]),
+            AdminCall::RenounceAdmin => ("renounce_admin", vec![]),
+        }
+    }
+    fn live_until(&self, live: u16) -> u32 {
+        self.seq0 + 50 + live as u32
+    }
+
+    fn observe(&self) -> Result<Obs, Violation> {
+        let e = &self.e;
+        let r: SVec<u32> = call_t(e, &self.target, "report", args![e; SVec::<(u32, u32)>::new(e)])
+            .map_err(|er| violation("C09/harness/target-report", format!("target report failed: {er}")))?;
+        let target_total = r.get(0).unwrap_or(u32::MAX);
+        let mut accts = self.actors.clone();
+        accts.push(self.ctrl.clone());
+        let o = std::panic::catch_unwind(std::panic::AssertUnwindSafe(|| {
+            e.as_contract(&self.ctrl, || {
+                use stellar_access::access_control as ac;
+                use stellar_governance::timelock as tl;
+                let roles: Vec<[bool; 4]> = accts
+                    .iter()
+                    .map(|a| {
+                        let mut row = [false; 4];
+                        for (r, slot) in row.iter_mut().enumerate() {
+                            *slot = ac::has_role(e, a, &role_sym(e, r)).is_some();
+                        }
+                        row
+                    })
+                    .collect();
+                let mut role_admin = [None; 4];
+                for (r, slot) in role_admin.iter_mut().enumerate() {
+                    *slot = ac::get_role_admin(e, &role_sym(e, r)).map(|s| (0..4).find(|k| role_sym(e, *k) == s).unwrap_or(99));
+                }
+                Obs {
+                    min_delay: tl::get_min_delay(e),
+                    admin: ac::get_admin(e),
+                    roles,
+                    exec_count: ac::get_role_member_count(e, &role_sym(e, R_EXEC)),
+                    role_admin,
+                    ops: self.ops.iter().map(|o| (tl::get_operation_ledger(e, &o.id), tl::get_operation_state(e, &o.id) as u32)).collect(),
+                    target_total,
+                }
+            })
+        }));
+        o.map_err(|_| violation("C09/getters/failed", "a library getter panicked while reading the controller state"))
+    }
+
+    fn expect(&self, m: &Model) -> Obs {
+        let now = envx::seq(&self.e);
+        let mut roles = vec![[false; 4]; N_ACT + 1];
+        for (a, r) in &m.roles {
+            roles[*a][*r] = true;
+        }
+        Obs {
+            min_delay: m.min_delay,
+            admin: match m.admin {
+                Adm::Ctrl => Some(self.ctrl.clone()),
+                Adm::Actor(a) => Some(self.actors[a].clone()),
+                Adm::Nobody => None,
+            },
+            roles,
+            exec_count: m.execs().len() as u32,
+            role_admin: m.role_admin,
+            ops: m.st.iter().map(|s| derive(*s, now)).collect(),
+            target_total: m.target_total,
+        }
+    }
+}
+
+fn pred_done(w: &World, m: &Model, k: usize) -> bool {
+    match (w.ops[k].pred_idx, w.ops[k].pred_never) {
+        (_, true) => false,
+        (Some(j), _) => m.st[j] == St::Done,
+        (None, _) => true,
+    }
+}
+
+fn resolve(s: &Sel, last: usize, w: &World, m: &Model) -> usize {
+    let class = |x: u16, f: &dyn Fn(usize) -> bool| -> Option<usize> {
+        let v: Vec<usize> = (0..POOL).filter(|i| f(*i)).collect();
+        if v.is_empty() {
+            None
+        } else {
+            Some(v[pick(x, v.len())])
+        }
+    };
+    let pend = |i: usize| matches!(m.st[i], St::Sched(_));
+    match s {
+        Sel::Idx(x) => pick(*x, POOL),
+        Sel::Last => last,
+        Sel::Unset(x) => class(*x, &|i| m.st[i] == St::Unset).unwrap_or(pick(*x, POOL)),
+        Sel::Pending(x) => class(*x, &|i| pend(i)).unwrap_or(pick(*x, POOL)),
+        Sel::Done(x) => class(*x, &|i| m.st[i] == St::Done).unwrap_or(pick(*x, POOL)),
+        Sel::AdminPending(x) => class(*x, &|i| pend(i) && w.ops[i].call.is_some() && pred_done(w, m, i))
+            .or_else(|| class(*x, &|i| pend(i) && w.ops[i].call.is_some()))
+            .or_else(|| class(*x, &|i| w.ops[i].call.is_some()))
+            .unwrap_or(0),
+        Sel::ExtPending(x) => class(*x, &|i| pend(i) && w.ops[i].call.is_none() && pred_done(w, m, i))
+            .or_else(|| class(*x, &|i| pend(i) && w.ops[i].call.is_none()))
+            .or_else(|| class(*x, &|i| w.ops[i].call.is_none()))
+            .unwrap_or(pick(*x, POOL)),
+    }
+}
+
+fn tweak_call(c: &AdminCall) -> AdminCall {
+    match c {
+        AdminCall::UpdateDelay(v) => AdminCall::UpdateDelay(v + 1),
+        AdminCall::GrantRole { acct, role } => AdminCall::GrantRole { acct: (acct + 1) % N_ACT as u8, role: *role },
+        AdminCall::RevokeRole { acct, role } => AdminCall::RevokeRole { acct: *acct, role: (role + 1) % 4 },
+        AdminCall::SetRoleAdmin { role, admin_role } => AdminCall::SetRoleAdmin { role: *role, admin_role: (admin_role + 1) % 4 },
+        AdminCall::TransferAdmin { to, live } => AdminCall::TransferAdmin { to: (to + 1) % N_ACT as u8, live: *live },
+        AdminCall::RenounceAdmin => AdminCall::UpdateDelay(0),
+    }
+}
+
+/// model-level context
+#[derive(Clone, Debug)]
+enum MCtx {
+    Call(AdminCall),
+    Foreign,
+}
+#[derive(Clone, Debug)]
+struct MMeta {
+    pred: BytesN<32>,
+    salt: BytesN<32>,
+    executor: Option<usize>,
+    /// an exact entry of `executor` for this very (context, descriptor) was attached
+    entry_ok: bool,
+}
+
+#[derive(Debug)]
+#[allow(dead_code)]
+enum Reject {
+    Short,
+    Foreign,
+    NoSuchOp,
+    NotReady(St),
+    PredNotDone,
+    ExecutorRole,
+    ExecutorAuth,
+}
+impl Reject {
+    fn clause(&self) -> &'static str {
+        match self {
+            Reject::Short => "descriptor-count-mismatch",
+            Reject::Foreign => "foreign-context-accepted",
+            Reject::NoSuchOp => "no-matching-operation",
+            Reject::NotReady(_) => "operation-not-ready",
+            Reject::PredNotDone => "predecessor-not-done",
+            Reject::ExecutorRole => "executor-without-role",
+            Reject::ExecutorAuth => "executor-not-authorized",
+        }
+    }
+}
+
+/// What `__check_auth` MAY accept according to the statement: processes the contexts in order on a
+/// copy of the model; returns the consumed operations or the first reason for refusal.
+fn model_check_auth(w: &World, m: &Model, now: u32, ctxs: &[MCtx], metas: &[MMeta]) -> Result<Vec<usize>, (usize, Reject)> {
+    let mut m = m.clone();
+    let mut consumed = vec![];
+    for (i, c) in ctxs.iter().enumerate() {
+        let Some(meta) = metas.get(i) else { return Err((i, Reject::Short)) };
+        let MCtx::Call(call) = c else { return Err((i, Reject::Foreign)) };
+        let Some(k) = (0..POOL).find(|k| w.ops[*k].call.as_ref() == Some(call) && w.ops[*k].pred == meta.pred && w.ops[*k].salt == meta.salt) else {
+            return Err((i, Reject::NoSuchOp));
+        };
+        if !matches!(m.st[k], St::Sched(r) if r <= now) {
+            return Err((i, Reject::NotReady(m.st[k])));
+        }
+        if !pred_done(w, &m, k) {
+            return Err((i, Reject::PredNotDone));
+        }
+        if !m.execs().is_empty() {
+            match meta.executor {
+                Some(x) if m.roles.contains(&(x, R_EXEC)) => {
+                    if !meta.entry_ok {
+                        return Err((i, Reject::ExecutorAuth));
+                    }
+                }
+                _ => return Err((i, Reject::ExecutorRole)),
+            }
+        }
+        m.st[k] = St::Done;
+        consumed.push(k);
+    }
+    Ok(consumed)
+}
+
+/// Is the body of the admin function certain to succeed (Some(true)) / fail (Some(false)) once authorized?
+fn body_ok(w: &World, m: &Model, c: &AdminCall, now: u32) -> Option<bool> {
+    if m.admin != Adm::Ctrl {
+        return Some(false);
+    }
+    match c {
+        AdminCall::UpdateDelay(_) | AdminCall::GrantRole { .. } | AdminCall::SetRoleAdmin { .. } => Some(true),
+        AdminCall::RevokeRole { acct, role } => Some(m.roles.contains(&(*acct as usize % N_ACT, *role as usize % 4))),
+        AdminCall::TransferAdmin { live, .. } => Some(w.live_until(*live) >= now),
+        AdminCall::RenounceAdmin => {
+            if m.pending.is_none() {
+                Some(true)
+            } else {
+                None
+            }
+        }
+    }
+}
+
+fn apply_effect(w: &World, m: &mut Model, c: &AdminCall) {
+    match c {
+        AdminCall::UpdateDelay(v) => m.min_delay = *v,
+        AdminCall::GrantRole { acct, role } => {
+            m.roles.insert((*acct as usize % N_ACT, *role as usize % 4));
+        }
+        AdminCall::RevokeRole { acct, role } => {
+            m.roles.remove(&(*acct as usize % N_ACT, *role as usize % 4));
+        }
+        AdminCall::SetRoleAdmin { role, admin_role } => m.role_admin[*role as usize % 4] = Some(*admin_role as usize % 4),
+        AdminCall::TransferAdmin { to, live } => m.pending = Some((*to as usize % N_ACT, w.live_until(*live))),
+        AdminCall::RenounceAdmin => m.admin = Adm::Nobody,
+    }
+}
+
+/// Attach entries per auth mode for a call requiring `who`'s authorization of `inv`; returns "exact entry attached".
+fn auth_entries(w: &World, who: usize, inv: &Inv, tampered: &Inv, mode: &Auth) -> (Vec<SorobanAuthorizationEntry>, bool) {
+    let e = &w.e;
+    let other = |k: u16| -> usize {
+        let v: Vec<usize> = (0..N_ACT).filter(|a| *a != who).collect();
+        v[pick(k, v.len())]
+    };
+    match mode {
+        Auth::Exact => (vec![envx::entry(e, &w.actors[who], inv)], true),
+        Auth::Drop => (vec![], false),
+        Auth::Swap(k) => (vec![envx::entry(e, &w.actors[other(*k)], inv)], false),
+        Auth::Tamper => (vec![envx::entry(e, &w.actors[who], tampered)], false),
+        Auth::Surplus(k) => {
+            let junk = Inv::new(&w.target, "bump", args![e; 1u32]);
+            (vec![envx::entry(e, &w.actors[who], inv), envx::entry(e, &w.actors[other(*k)], &junk)], true)
+        }
+    }
+}
+
+fn tweak_bytes(e: &Env, b: &BytesN<32>) -> BytesN<32> {
+    let mut a = b.to_array();
+    a[31] ^= 0x5a;
+    BytesN::from_array(e, &a)
+}
+
+/// Resolve descriptor specs against contexts; builds the soroban descriptors, the model descriptors and
+/// the executors' entries.
+#[allow(clippy::type_complexity)]
+fn build_metas(
+    w: &World,
+    m: &Model,
+    last: usize,
+    specs: &[MetaSpec],
+    ctx_ops: &[Option<usize>],
+    ctx_calls: &[Option<(Symbol, SVec<Val>)>],
+) -> (SVec<OperationMeta>, Vec<MMeta>, Vec<SorobanAuthorizationEntry>) {
+    let e = &w.e;
+    let mut sv: SVec<OperationMeta> = SVec::new(e);
+    let mut mm = vec![];
+    let mut entries = vec![];
+    let holders = m.execs();
+    for (i, sp) in specs.iter().enumerate() {
+        let k = match &sp.like {
+            Like::Ctx => ctx_ops.get(i).copied().flatten().unwrap_or(ctx_ops.first().copied().flatten().unwrap_or(0)),
+            Like::Op(s) => resolve(s, last, w, m),
+        };
+        let mut pred = w.ops[k].pred.clone();
+        let mut salt = w.ops[k].salt.clone();
+        if sp.pred_tweak {
+            pred = if pred == zero(e) { w.ops[k].id.clone() } else { zero(e) };
+        }
+        if sp.salt_tweak {
+            salt = tweak_bytes(e, &salt);
+        }
+        let executor: Option<usize> = match &sp.executor {
+            ExecSel::Absent => None,
+            ExecSel::Holder(x) => {
+                if holders.is_empty() {
+                    None
+                } else {
+                    Some(holders[pick(*x, holders.len())])
+                }
+            }
+            ExecSel::NonHolder(x) => {
+                let v: Vec<usize> = (0..N_ACT).filter(|a| !holders.contains(a)).collect();
+                if v.is_empty() {
+                    None
+                } else {
+                    Some(v[pick(*x, v.len())])
+                }
+            }
+        };
+        let mut entry_ok = false;
+        if let (Some(x), Some(Some((f, a)))) = (executor, ctx_calls.get(i)) {
+            // what the executor must authorize: require_auth_for_args inside the controller's __check_auth
+            let mk = |salt: &BytesN<32>, a: &SVec<Val>, root: &str| -> Inv {
+                Inv::new(&w.ctrl, root, args![e; Symbol::new(e, "execute_op"), w.ctrl.clone(), f.clone(), a.clone(), pred.clone(), salt.clone()])
+            };
+            match &sp.entry {
+                EntryMode::Exact => {
+                    entries.push(envx::entry(e, &w.actors[x], &mk(&salt, a, "__check_auth")));
+                    entry_ok = true;
+                }
+                EntryMode::Missing => {}
+                EntryMode::TamperSalt => entries.push(envx::entry(e, &w.actors[x], &mk(&tweak_bytes(e, &salt), a, "__check_auth"))),
+                EntryMode::TamperArgs => {
+                    let mut a2 = a.clone();
+                    a2.push_back(7u32.into_val(e));
+                    entries.push(envx::entry(e, &w.actors[x], &mk(&salt, &a2, "__check_auth")));
+                }
+                EntryMode::WrongRoot => entries.push(envx::entry(e, &w.actors[x], &mk(&salt, a, "execute_op"))),
+                EntryMode::OtherSigner(o) => {
+                    let v: Vec<usize> = (0..N_ACT).filter(|y| *y != x).collect();
+                    entries.push(envx::entry(e, &w.actors[v[pick(*o, v.len())]], &mk(&salt, a, "__check_auth")));
+                }
+            }
+        }
+        sv.push_back(OperationMeta { predecessor: pred.clone(), salt: salt.clone(), executor: executor.map(|x| w.actors[x].clone()) });
+        mm.push(MMeta { pred, salt, executor, entry_ok });
+    }
+    (sv, mm, entries)
+}
+
+fn fit_metas(specs: &[MetaSpec], fit: bool, n: usize) -> Vec<MetaSpec> {
+    let mut v: Vec<MetaSpec> = specs.to_vec();
+    if fit {
+        v.truncate(n);
+        while v.len() < n {
+            v.push(MetaSpec { like: Like::Ctx, pred_tweak: false, salt_tweak: false, executor: ExecSel::Holder(v.len() as u16 * 21845), entry: EntryMode::Exact });
+        }
+    }
+    v
+}
+
+fn resolve_call(w: &World, m: &Model, last: usize, c: &CallSel) -> (AdminCall, Option<usize>) {
+    let of_op = |k: usize| -> AdminCall { w.ops[k].call.clone().or_else(|| w.ops[0].call.clone()).unwrap_or(AdminCall::UpdateDelay(0)) };
+    match c {
+        CallSel::Op(s) => {
+            let k = resolve(s, last, w, m);
+            let k = if w.ops[k].call.is_some() { k } else { 0 };
+            (of_op(k), Some(k))
+        }
+        CallSel::OpTweaked(s) => {
+            let k = resolve(s, last, w, m);
+            let k = if w.ops[k].call.is_some() { k } else { 0 };
+            (tweak_call(&of_op(k)), Some(k))
+        }
+        CallSel::Free(c) => (c.clone(), (0..POOL).find(|k| w.ops[*k].call.as_ref() == Some(c))),
+    }
+}
+
+fn pre_advance(w: &World, m: &Model, k: Option<usize>, at: &Option<i8>) {
+    if let (Some(k), Some(d)) = (k, at) {
+        if let St::Sched(r) = m.st[k] {
+            let to = (r as i64 + *d as i64).max(0) as u32;
+            if to > envx::seq(&w.e) {
+                envx::set_seq(&w.e, to);
+            }
+        }
+    }
+}
+
+fn accepted_violation(w: &World, m: &Model, what: &str, n_ctx: usize, n_meta: usize, rej: &(usize, Reject)) -> Violation {
+    // observable effect of the call that went through (model `m` = state before the call)
+    let effect = match w.observe() {
+        Ok(got) => {
+            let want = w.expect(m);
+            let mut d = vec![];
+            if got.min_delay != want.min_delay {
+                d.push(format!("get_min_delay {} -> {}", want.min_delay, got.min_delay));
+            }
+            if got.admin != want.admin {
+                d.push(format!("get_admin {:?} -> {:?}", want.admin, got.admin));
+            }
+            if got.roles != want.roles {
+                d.push(format!("has_role matrix {:?} -> {:?}", want.roles, got.roles));
+            }
+            if got.role_admin != want.role_admin {
+                d.push(format!("role admins {:?} -> {:?}", want.role_admin, got.role_admin));
+            }
+            if got.ops != want.ops {
+                d.push(format!("operation (ledger,state) {:?} -> {:?}", want.ops, got.ops));
+            }
+            if d.is_empty() {
+                "no getter changed".to_string()
+            } else {
+                d.join("; ")
+            }
+        }
+        Err(_) => "state unreadable".to_string(),
+    };
+    if n_meta < n_ctx {
+        violation(
+            "C09/check_auth/descriptor-count-mismatch",
+            format!(
+                "{what}: accepted although only {n_meta} operation descriptor(s) were supplied for {n_ctx} authorized context(s); no ready operation was consumed for context {} [observed: {effect}]",
+                rej.0
+            ),
+        )
+    } else {
+        violation(
+            format!("C09/check_auth/{}", rej.1.clause()),
+            format!("{what}: accepted, but context {} is not backed by a ready operation for exactly that call: {:?} [observed: {effect}]", rej.0, rej.1),
+        )
+    }
+}
+
+pub fn run(case: &Case, ctx: &mut Ctx) -> R {
+    ensure!(case.pool.len() == POOL && case.n_prop >= 1 && case.n_prop <= 2 && case.n_exec <= 2, "C09/harness/ill-formed-case", "ill-formed case");
+    let e = envx::new_env(case.seq, envx::BIG_TTL);
+    // actors: 0,1 = proposer candidates; 2,3 = executor candidates; 4,5 = strangers
+    let actors = envx::actors(&e, N_ACT);
+    let mut proposers: SVec<Address> = SVec::new(&e);
+    let mut executors: SVec<Address> = SVec::new(&e);
+    let mut roles = BTreeSet::new();
+    for i in 0..case.n_prop as usize {
+        proposers.push_back(actors[i].clone());
+        roles.insert((i, R_PROP));
+        roles.insert((i, R_CANC));
+    }
+    for i in 0..case.n_exec as usize {
+        executors.push_back(actors[2 + i].clone());
+        roles.insert((2 + i, R_EXEC));
+    }
+    let ctrl = e.register(TimelockController, (case.min_delay, proposers, executors, None::<Address>));
+    let target = e.register(Target, ());
+    let batcher = e.register(Batcher, ());
+    let mut w = World { e: e.clone(), ctrl: ctrl.clone(), actors, target: target.clone(), batcher, ops: vec![], seq0: case.seq };
+    let never = BytesN::from_array(&e, &[0xEE; 32]);
+    for (i, sp) in case.pool.iter().enumerate() {
+        let mut salt = [0u8; 32];
+        salt[0] = i as u8 + 1;
+        salt[1] = sp.salt;
+        let (tgt, func, a, callo) = match &sp.target {
+            OpTarget::Chosen => {
+                let (f, a) = w.call_inv(&case.chosen);
+                (ctrl.clone(), Symbol::new(&e, f), svec(&e, &a), Some(case.chosen.clone()))
+            }
+            OpTarget::Admin(c) => {
+                let (f, a) = w.call_inv(c);
+                (ctrl.clone(), Symbol::new(&e, f), svec(&e, &a), Some(c.clone()))
+            }
+            OpTarget::External(x) => (target.clone(), Symbol::new(&e, "bump"), args![&e; *x as u32], None),
+        };
+        let (pred, pred_idx, pred_never) = match &sp.pred {
+            PredSel::Pool(s) if i > 0 => {
+                let j = pick(*s, i);
+                (w.ops[j].id.clone(), Some(j), false)
+            }
+            PredSel::Never => (never.clone(), None, true),
+            _ => (zero(&e), None, false),
+        };
+        let salt = BytesN::from_array(&e, &salt);
+        let id: BytesN<32> = call_t(&e, &ctrl, "hash_operation", args![&e; tgt.clone(), func.clone(), a.clone(), pred.clone(), salt.clone()])
+            .map_err(|er| violation("C09/hash_operation/failed", er))?;
+        w.ops.push(OpInfo { target: tgt, func, args: a, pred, salt, id, call: callo, pred_idx, pred_never });
+    }
+    let w = w;
+    let mut m = Model { min_delay: case.min_delay, admin: Adm::Ctrl, pending: None, roles, role_admin: [None; 4], st: vec![St::Unset; POOL], target_total: 0 };
+
+    let compare = |m: &Model, what: &str| -> R {
+        let got = w.observe()?;
+        let want = w.expect(m);
+        if got != want {
+            let clause = if got.min_delay != want.min_delay {
+                "min_delay"
+            } else if got.admin != want.admin {
+                "admin"
+            } else if got.roles != want.roles || got.exec_count != want.exec_count || got.role_admin != want.role_admin {
+                "roles"
+            } else if got.ops != want.ops {
+                "operation-state"
+            } else {
+                "target-invocations"
+            };
+            bail!(format!("C09/state/{clause}-mismatch"), "after {what}: observed {:?}, model {:?}", got, want);
+        }
+        Ok(())
+    };
+    compare(&m, "set-up")?;
+
+    let mut last = 0usize;
+    let (mut saw_short, mut saw_nonready, mut saw_accept) = (false, false, false);
+
+    for (n, stp) in case.steps.iter().enumerate() {
+        let what = format!("step {n} {:?}", stp);
+        match stp {
+            Step::Advance(a) => match a {
+                Adv::K(k) => envx::advance(&e, *k),
+                Adv::ToReady { op, d } => {
+                    let k = resolve(op, last, &w, &m);
+                    last = k;
+                    pre_advance(&w, &m, Some(k), &Some(*d));
+                }
+            },
+            Step::Schedule { op, delay, by, auth } => {
+                let k = resolve(op, last, &w, &m);
+                last = k;
+                let by = pick(*by, N_ACT);
+                let now = envx::seq(&e);
+                let d = match delay {
+                    Delay::MinPlus(x) => (m.min_delay as i64 + *x as i64).max(0) as u32,
+                    Delay::K(x) => *x,
+                };
+                let o = &w.ops[k];
+                let mk = |d: u32| Inv::new(&ctrl, "schedule_op", args![&e; o.target.clone(), o.func.clone(), o.args.clone(), o.pred.clone(), o.salt.clone(), d, w.actors[by].clone()]);
+                let inv = mk(d);
+                let (entries, exact) = auth_entries(&w, by, &inv, &mk(d.wrapping_add(1)), auth);
+                envx::set_entries(&e, &entries);
+                let r = call_t::<BytesN<32>>(&e, &ctrl, "schedule_op", svec(&e, &inv.args));
+                envx::no_auth(&e);
+                ctx.op(r.is_ok());
+                let has_role = m.roles.contains(&(by, R_PROP));
+                let tl_ok = m.st[k] == St::Unset && d >= m.min_delay;
+                if !has_role {
+                    ctx.class("schedule_by_non_proposer");
+                }
+                if !exact {
+                    ctx.class("schedule_auth_defective");
+                }
+                match &r {
+                    Ok(id) => {
+                        ensure!(has_role, "C09/schedule_op/without-proposer-role", "{what}: actor {by} has no proposer role but scheduled");
+                        ensure!(exact, "C09/schedule_op/without-proposer-authorization", "{what}: scheduled without the proposer's exact authorization entry ({:?})", auth);
+                        ensure!(tl_ok, "C09/schedule_op/timelock-precondition", "{what}: op state {:?}, delay {d}, min_delay {}", m.st[k], m.min_delay);
+                        ensure!(*id == o.id, "C09/schedule_op/id", "{what}: returned id differs from hash_operation");
+                        m.st[k] = St::Sched(now.saturating_add(d));
+                        ctx.class("schedule_ok");
+                    }
+                    Err(er) => {
+                        ensure!(!(has_role && exact && tl_ok), "C09/schedule_op/refused-well-formed", "{what}: proposer with exact entry, op Unset, delay {d} >= {}: {er}", m.min_delay);
+                    }
+                }
+            }
+            Step::Cancel { op, by, auth } => {
+                let k = resolve(op, last, &w, &m);
+                last = k;
+                let by = pick(*by, N_ACT);
+                let o = &w.ops[k];
+                let inv = Inv::new(&ctrl, "cancel_op", args![&e; o.id.clone(), w.actors[by].clone()]);
+                let tam = Inv::new(&ctrl, "cancel_op", args![&e; tweak_bytes(&e, &o.id), w.actors[by].clone()]);
+                let (entries, exact) = auth_entries(&w, by, &inv, &tam, auth);
+                envx::set_entries(&e, &entries);
+                let r = call(&e, &ctrl, "cancel_op", svec(&e, &inv.args));
+                envx::no_auth(&e);
+                ctx.op(r.is_ok());
+                let has_role = m.roles.contains(&(by, R_CANC));
+                let pending = matches!(m.st[k], St::Sched(_));
+                if pending && !has_role {
+                    ctx.class("cancel_pending_by_non_canceller");
+                }
+                if pending && has_role && !exact {
+                    ctx.class("cancel_pending_auth_defective");
+                }
+                match &r {
+                    Ok(_) => {
+                        ensure!(has_role, "C09/cancel_op/without-canceller-role", "{what}: actor {by} has no canceller role but cancelled");
+                        ensure!(exact, "C09/cancel_op/without-canceller-authorization", "{what}: cancelled without the canceller's exact authorization entry ({:?})", auth);
+                        ensure!(pending, "C09/cancel_op/not-pending", "{what}: op state {:?}", m.st[k]);
+                        m.st[k] = St::Unset;
+                        ctx.class("cancel_ok");
+                    }
+                    Err(er) => ensure!(!(has_role && exact && pending), "C09/cancel_op/refused-well-formed", "{what}: canceller with exact entry, op pending: {er}"),
+                }
+            }
+            Step::Execute { op, executor, auth, at } => {
+                let k = resolve(op, last, &w, &m);
+                last = k;
+                pre_advance(&w, &m, Some(k), at);
+                let now = envx::seq(&e);
+                let o = &w.ops[k];
+                let holders = m.execs();
+                let ex: Option<usize> = match executor {
+                    ExecSel::Absent => None,
+                    ExecSel::Holder(x) => {
+                        if holders.is_empty() {
+                            Some(pick(*x, N_ACT))
+                        } else {
+                            Some(holders[pick(*x, holders.len())])
+                        }
+                    }
+                    ExecSel::NonHolder(x) => {
+                        let v: Vec<usize> = (0..N_ACT).filter(|a| !holders.contains(a)).collect();
+                        Some(v[pick(*x, v.len())])
+                    }
+                };
+                let exv: Option<Address> = ex.map(|x| w.actors[x].clone());
+                let mk = |salt: &BytesN<32>| Inv::new(&ctrl, "execute_op", args![&e; o.target.clone(), o.func.clone(), o.args.clone(), o.pred.clone(), salt.clone(), exv.clone()]);
+                let inv = mk(&o.salt);
+                let (entries, exact) = match ex {
+                    Some(x) => auth_entries(&w, x, &inv, &mk(&tweak_bytes(&e, &o.salt)), auth),
+                    None => (vec![], false),
+                };
+                envx::set_entries(&e, &entries);
+                let r = call(&e, &ctrl, "execute_op", svec(&e, &inv.args));
+                envx::no_auth(&e);
+                ctx.op(r.is_ok());
+                let ready = matches!(m.st[k], St::Sched(r) if r <= now);
+                let tl_ok = ready && pred_done(&w, &m, k);
+                let exec_ok = holders.is_empty() || matches!(ex, Some(x) if holders.contains(&x) && exact);
+                if tl_ok && !holders.is_empty() && !exec_ok {
+                    ctx.class("execute_ready_without_executor_auth");
+                }
+                match &r {
+                    Ok(_) => {
+                        ensure!(o.call.is_none(), "C09/execute_op/self-target-reentered", "{what}: execute_op on the controller itself succeeded");
+                        if !holders.is_empty() {
+                            ensure!(matches!(ex, Some(x) if holders.contains(&x)), "C09/execute_op/without-executor-role", "{what}: executors are configured, but {:?} executed", ex);
+                            ensure!(exact, "C09/execute_op/without-executor-authorization", "{what}: executed without the executor's exact authorization entry ({:?})", auth);
+                        }
+                        ensure!(tl_ok, "C09/execute_op/timelock-precondition", "{what}: op state {:?} at {now}, predecessor done {}", m.st[k], pred_done(&w, &m, k));
+                        m.st[k] = St::Done;
+                        m.target_total += 1;
+                        ctx.class("execute_ok");
+                    }
+                    Err(er) => {
+                        if o.call.is_some() {
+                            ctx.class("execute_op_on_self_refused");
+                        } else {
+                            ensure!(!(tl_ok && exec_ok), "C09/execute_op/refused-well-formed", "{what}: ready external op, executor condition satisfied: {er}");
+                        }
+                    }
+                }
+            }
+            Step::Accept { by, auth } => {
+                let by = pick(*by, N_ACT);
+                let inv = Inv::new(&ctrl, "accept_admin_transfer", args![&e]);
+                let tam = Inv::new(&ctrl, "renounce_admin", args![&e]);
+                let (entries, _) = auth_entries(&w, by, &inv, &tam, auth);
+                // who signed the exact invocation (Swap / Surplus entries are signed by another actor)
+                let other = |k: u16| -> usize {
+                    let v: Vec<usize> = (0..N_ACT).filter(|a| *a != by).collect();
+                    v[pick(k, v.len())]
+                };
+                let signers: Vec<usize> = match auth {
+                    Auth::Exact | Auth::Surplus(_) => vec![by],
+                    Auth::Swap(k) => vec![other(*k)],
+                    Auth::Drop | Auth::Tamper => vec![],
+                };
+                envx::set_entries(&e, &entries);
+                let r = call(&e, &ctrl, "accept_admin_transfer", args![&e]);
+                envx::no_auth(&e);
+                ctx.op(r.is_ok());
+                if r.is_ok() {
+                    let p = match m.pending {
+                        Some((p, _)) if signers.contains(&p) => p,
+                        _ => bail!(
+                            "C09/accept_admin_transfer/without-consumed-transfer",
+                            "{what}: admin transfer accepted with entries of {:?}; pending transfer in the model: {:?}",
+                            signers,
+                            m.pending
+                        ),
+                    };
+                    m.admin = Adm::Actor(p);
+                    m.pending = None;
+                    compare(&m, &what)?;
+                    // the controller is no longer self-administered: outside the property's domain
+                    ctx.class("admin_transferred_away");
+                    break;
+                }
+            }
+            Step::Probe { call: csel, second, metas, fit, via, at } => {
+                let (c1, k1) = resolve_call(&w, &m, last, csel);
+                if let Some(k) = k1 {
+                    last = k;
+                }
+                pre_advance(&w, &m, k1, at);
+                let now = envx::seq(&e);
+                let (f1, a1) = w.call_inv(&c1);
+                let a1 = svec(&e, &a1);
+                let c2: Option<(AdminCall, Option<usize>)> = if *via == Via::Batch { second.as_ref().map(|s| resolve_call(&w, &m, last, s)) } else { None };
+                // contexts as the host will present them
+                let mut mctx: Vec<MCtx> = vec![];
+                let mut ctx_ops: Vec<Option<usize>> = vec![];
+                let mut ctx_calls: Vec<Option<(Symbol, SVec<Val>)>> = vec![];
+                if *via == Via::Batch {
+                    mctx.push(MCtx::Foreign);
+                    ctx_ops.push(k1);
+                    ctx_calls.push(None);
+                }
+                mctx.push(MCtx::Call(c1.clone()));
+                ctx_ops.push(k1);
+                ctx_calls.push(Some((Symbol::new(&e, f1), a1.clone())));
+                let mut second_inv = None;
+                if let Some((c2, k2)) = &c2 {
+                    let (f2, a2) = w.call_inv(c2);
+                    let a2 = svec(&e, &a2);
+                    mctx.push(MCtx::Call(c2.clone()));
+                    ctx_ops.push(*k2);
+                    ctx_calls.push(Some((Symbol::new(&e, f2), a2.clone())));
+                    second_inv = Some((f2, a2));
+                }
+                let metas = &fit_metas(metas, *fit, mctx.len());
+                let (sig, mm, mut entries) = build_metas(&w, &m, last, metas, &ctx_ops, &ctx_calls);
+                let sig_sc = ScVal::try_from_val(&e, &sig.to_val()).map_err(|_| violation("C09/harness/signature-conversion", "cannot convert the descriptor list"))?;
+                let admin_inv = Inv::new(&ctrl, f1, a1.clone());
+                let (top_c, top_f, top_args, root): (Address, &str, SVec<Val>, Inv) = match via {
+                    Via::Direct => (ctrl.clone(), f1, a1.clone(), admin_inv.clone()),
+                    Via::Forward => (w.batcher.clone(), "fwd", args![&e; ctrl.clone(), Symbol::new(&e, f1), a1.clone()], admin_inv.clone()),
+                    Via::Batch => {
+                        let (f2v, a2v): (Option<Symbol>, SVec<Val>) = match &second_inv {
+                            Some((f2, a2)) => (Some(Symbol::new(&e, f2)), a2.clone()),
+                            None => (None, SVec::new(&e)),
+                        };
+                        let targs = args![&e; ctrl.clone(), ctrl.clone(), Symbol::new(&e, f1), a1.clone(), f2v, a2v];
+                        let mut root = Inv::new(&w.batcher, "run", targs.clone()).with_sub(admin_inv.clone());
+                        if let Some((f2, a2)) = &second_inv {
+                            root = root.with_sub(Inv::new(&ctrl, f2, a2.clone()));
+                        }
+                        (w.batcher.clone(), "run", targs, root)
+                    }
+                };
+                entries.push(envx::entry_with_sig(&e, &ctrl, &root, sig_sc));
+                envx::set_entries(&e, &entries);
+                let r = call(&e, &top_c, top_f, top_args);
+                envx::no_auth(&e);
+                ctx.op(r.is_ok());
+
+                let verdict = model_check_auth(&w, &m, now, &mctx, &mm);
+                let short = mm.len() < mctx.len();
+                if short {
+                    saw_short = true;
+                    ctx.class("probe_fewer_descriptors_than_contexts");
+                }
+                if mm.len() > mctx.len() {
+                    ctx.class("probe_more_descriptors_than_contexts");
+                }
+                if mm.len() == mctx.len() && matches!(verdict, Err((_, Reject::NotReady(_)))) {
+                    saw_nonready = true;
+                    ctx.class("probe_wellformed_on_nonready_op");
+                }
+                if let Err((_, rj)) = &verdict {
+                    ctx.class(&format!("probe_defect:{}", rj.clause()));
+                }
+                if *via != Via::Direct {
+                    ctx.class(if *via == Via::Batch { "probe_via_batch" } else { "probe_via_forward" });
+                }
+                match &r {
+                    Ok(_) => {
+                        let consumed = match verdict {
+                            Ok(c) => c,
+                            Err(rej) => return Err(accepted_violation(&w, &m, &what, mctx.len(), mm.len(), &rej)),
+                        };
+                        for k in consumed {
+                            m.st[k] = St::Done;
+                        }
+                        apply_effect(&w, &mut m, &c1);
+                        if let Some((c2, _)) = &c2 {
+                            apply_effect(&w, &mut m, c2);
+                        }
+                        saw_accept = true;
+                        ctx.class("probe_accepted");
+                        if !m.execs().is_empty() {
+                            ctx.class("probe_accepted_with_executor_entry");
+                        }
+                    }
+                    Err(er) => {
+                        let certain = body_ok(&w, &m, &c1, now) == Some(true);
+                        if verdict.is_ok() && mm.len() == mctx.len() && *via != Via::Batch {
+                            if certain {
+                                bail!("C09/admin-call/refused-well-formed", "{what}: a ready operation for exactly this call with well-formed credentials was refused: {er}")
+                            } else {
+                                ctx.class("probe_authorized_but_body_fails");
+                            }
+                        }
+                    }
+                }
+            }
+            Step::CheckAuth { contexts, metas, fit, at } => {
+                let mut mctx: Vec<MCtx> = vec![];
+                let mut ctx_ops: Vec<Option<usize>> = vec![];
+                let mut ctx_calls: Vec<Option<(Symbol, SVec<Val>)>> = vec![];
+                let mut sctx: SVec<Context> = SVec::new(&e);
+                let mut first_op = None;
+                for c in contexts {
+                    let (call, k): (Option<AdminCall>, Option<usize>) = match c {
+                        CtxSpec::Op(s) => {
+                            let k = resolve(s, last, &w, &m);
+                            (w.ops[k].call.clone(), Some(k))
+                        }
+                        CtxSpec::OpTweaked(s) => {
+                            let k = resolve(s, last, &w, &m);
+                            (w.ops[k].call.as_ref().map(tweak_call), Some(k))
+                        }
+                        CtxSpec::Free(c) => (Some(c.clone()), (0..POOL).find(|k| w.ops[*k].call.as_ref() == Some(c))),
+                        CtxSpec::Foreign | CtxSpec::Create => (None, None),
+                    };
+                    if first_op.is_none() {
+                        first_op = k;
+                    }
+                    match (&call, c) {
+                        (Some(call), _) => {
+                            let (f, a) = w.call_inv(call);
+                            let a = svec(&e, &a);
+                            sctx.push_back(Context::Contract(ContractContext { contract: ctrl.clone(), fn_name: Symbol::new(&e, f), args: a.clone() }));
+                            mctx.push(MCtx::Call(call.clone()));
+                            ctx_calls.push(Some((Symbol::new(&e, f), a)));
+                        }
+                        (None, CtxSpec::Create) => {
+                            sctx.push_back(Context::CreateContractHostFn(CreateContractHostFnContext {
+                                executable: ContractExecutable::Wasm(BytesN::from_array(&e, &[7u8; 32])),
+                                salt: BytesN::from_array(&e, &[9u8; 32]),
+                            }));
+                            mctx.push(MCtx::Foreign);
+                            ctx_calls.push(None);
+                        }
+                        (None, _) => {
+                            // a context for another contract: the external op's own call, or Target::bump(1)
+                            let (t, f, a) = match k {
+                                Some(k) => (w.ops[k].target.clone(), w.ops[k].func.clone(), w.ops[k].args.clone()),
+                                None => (w.target.clone(), Symbol::new(&e, "bump"), args![&e; 1u32]),
+                            };
+                            sctx.push_back(Context::Contract(ContractContext { contract: t, fn_name: f.clone(), args: a.clone() }));
+                            mctx.push(MCtx::Foreign);
+                            // an executor may well sign for it: the context must be refused regardless
+                            ctx_calls.push(Some((f, a)));
+                        }
+                    }
+                    ctx_ops.push(k);
+                }
+                if let Some(k) = first_op {
+                    last = k;
+                }
+                // move to the latest ready ledger among the referenced operations (+d)
+                let latest = ctx_ops.iter().flatten().filter(|k| matches!(m.st[**k], St::Sched(_))).max_by_key(|k| match m.st[**k] {
+                    St::Sched(r) => r,
+                    _ => 0,
+                });
+                pre_advance(&w, &m, latest.copied().or(first_op), at);
+                let now = envx::seq(&e);
+                let metas = &fit_metas(metas, *fit, mctx.len());
+                let (sig, mm, entries) = build_metas(&w, &m, last, metas, &ctx_ops, &ctx_calls);
+                envx::set_entries(&e, &entries);
+                let payload = BytesN::from_array(&e, &[0x42; 32]);
+                let r = e.try_invoke_contract_check_auth::<TimelockError>(&ctrl, &payload, sig.to_val(), &sctx);
+                envx::no_auth(&e);
+                ctx.op(r.is_ok());
+                let verdict = model_check_auth(&w, &m, now, &mctx, &mm);
+                if mm.len() < mctx.len() {
+                    saw_short = true;
+                    ctx.class("check_auth_fewer_descriptors_than_contexts");
+                }
+                if mm.len() > mctx.len() {
+                    ctx.class("check_auth_more_descriptors_than_contexts");
+                }
+                if mctx.iter().any(|c| matches!(c, MCtx::Foreign)) {
+                    ctx.class("check_auth_with_foreign_or_create_context");
+                }
+                if mm.len() == mctx.len() && matches!(verdict, Err((_, Reject::NotReady(_)))) {
+                    saw_nonready = true;
+                    ctx.class("check_auth_wellformed_on_nonready_op");
+                }
+                match &r {
+                    Ok(()) => {
+                        let consumed = match verdict {
+                            Ok(c) => c,
+                            Err(rej) => return Err(accepted_violation(&w, &m, &what, mctx.len(), mm.len(), &rej)),
+                        };
+                        if consumed.len() >= 2 {
+                            ctx.class("check_auth_accepted_batch_of_2plus");
+                        }
+                        if !consumed.is_empty() {
+                            saw_accept = true;
+                            ctx.class("check_auth_accepted");
+                        } else {
+                            ctx.class("check_auth_accepted_empty_batch");
+                        }
+                        for k in consumed {
+                            m.st[k] = St::Done;
+                        }
+                    }
+                    Err(er) => {
+                        ensure!(
+                            !(verdict.is_ok() && mm.len() == mctx.len()),
+                            "C09/check_auth/refused-well-formed",
+                            "{what}: every context is backed by its own descriptor of a ready operation (executor authorized), but __check_auth refused: {:?}",
+                            er
+                        );
+                    }
+                }
+            }
+        }
+        compare(&m, &what)?;
+    }
+    if saw_short && saw_nonready && saw_accept {
+        ctx.nontrivial = true;
+        ctx.class("nontrivial");
+    }
+    Ok(())
+}
 
 pub fn property() -> Property {
-    Property { id: "C09", rule: "", subs: vec![], floors: vec![], assumptions: vec![] }
+    Property {
+        id: "C09",
+        rule: "case = (self-administered TimelockController, 1-2 proposers, 0-2 executors, pool of 4 operations (self-administration calls + external target calls, predecessor links), \
+               history of <= 30 (thorough 60) schedule_op / cancel_op / execute_op with auth modes, ledger advances, end-to-end admin calls carrying crafted controller credentials \
+               (Vec<OperationMeta> of length 0..3, perturbed predecessor/salt/executor, executor entry attached or not, direct / forwarded / batched) and direct __check_auth invocations \
+               with arbitrary (context list, descriptor list) pairs); non-trivial = the case contains a payload with fewer descriptors than contexts AND a well-formed payload on a \
+               non-ready operation AND an accepted call; distinct = distinct serialised case",
+        // (own Gen value instead of gen_sub: more shrink iterations, the histories are long)
+        subs: vec![Box::new(Gen::<Case> { name: "history", quick: 1500, thorough: 20000, strategy, run, max_shrink_iters: 3000 })],
+        // <= 1/10 of the class counts measured over seeds 0..5 (quick, repaired tree); thorough = 10x quick
+        floors: vec![
+            ("nontrivial", 50, 500),
+            ("probe_accepted", 60, 600),
+            ("probe_accepted_with_executor_entry", 40, 400),
+            ("probe_fewer_descriptors_than_contexts", 180, 1800),
+            ("probe_wellformed_on_nonready_op", 250, 2500),
+            ("probe_defect:executor-without-role", 4, 40),
+            ("probe_defect:executor-not-authorized", 4, 40),
+            ("check_auth_accepted", 8, 80),
+            ("check_auth_fewer_descriptors_than_contexts", 80, 800),
+            ("check_auth_with_foreign_or_create_context", 140, 1400),
+            ("schedule_ok", 300, 3000),
+            ("schedule_by_non_proposer", 150, 1500),
+            ("cancel_ok", 40, 400),
+            ("cancel_pending_auth_defective", 10, 100),
+            ("execute_ok", 40, 400),
+            ("execute_ready_without_executor_auth", 12, 120),
+        ],
+        assumptions: vec![
+            "Soroban native test host (auth-tree matching, __check_auth dispatch, rollback of failed invocations, no re-entry) is trusted",
+            "plain actors are accept-all account contracts: 'X authorized' == 'an entry of X with exactly that invocation tree was attached'",
+            "after a completed admin transfer to an external account the controller is no longer self-administered; the case ends there",
+            "Keccak-256: distinct operation field tuples have distinct ids",
+        ],
+    }
 }
